@@ -255,6 +255,18 @@ func c16Run(tp *core.Tape, e *core.Env) {
 			}
 		}
 	}
+	// one long-lived manager (the coordinator's, reloading as the operator edits the file) sees every
+	// text of this run in turn; after each reload its hash must be what a fresh process computes
+	longLived := prom.NewConfigManager()
+	_ = longLived.ReloadFromRaw([]byte(textA))
+	sameAsFresh := func(text, fresh, what string) {
+		if err := longLived.ReloadFromRaw([]byte(text)); err != nil {
+			return
+		}
+		if h := longLived.ConfigInfo().ConfigHash; h != fresh {
+			e.Violate("depends-on-history", "past=earlier-reloads-in-the-same-process,change="+what, "a manager that reloaded this run's earlier texts computes hash %q for content a fresh manager hashes as %q (last change: %s)", h, fresh, what)
+		}
+	}
 	// cosmetic re-renderings and external-label changes
 	nCos := 1 + tp.Choose("n_cosmetic", 3)
 	for i := 0; i < nCos && !e.Failed(); i++ {
@@ -282,6 +294,7 @@ func c16Run(tp *core.Tape, e *core.Env) {
 			return
 		}
 		e.Key("cosmetic", kind)
+		sameAsFresh(textB, hB, "cosmetic")
 		if hB != hA {
 			e.Violate("oversensitive", "kind="+kind, "a %s-only change altered the hash (%s -> %s); styles %+v / %+v", kind, hA, hB, stA, st)
 		}
@@ -324,6 +337,8 @@ func c16Run(tp *core.Tape, e *core.Env) {
 		}
 		field := idxRe.ReplaceAllString(fieldClass(ed.Path), "")
 		e.Key("semantic", ed.Kind, field)
+		sameAsFresh(textC, hC, "semantic:"+ed.Kind)
+		sameAsFresh(textA, hA, "back-to-original")
 		e.Probe("semantic_edit_" + ed.Kind)
 		if hC == hA {
 			e.Logf("original text:\n%s\nedited text:\n%s", textA, textC)
